@@ -170,6 +170,21 @@ func failList(w http.ResponseWriter, kind string) {
 		}
 		w.Header().Set("Content-Length", "0")
 		w.WriteHeader(code)
+	case "503-retry-after-0", "429-retry-after-past", "503-retry-after-1":
+		// a proxy (or a load balancer in front of it) that says when to come back: the agent's own back-off is
+		// the lower bound all the same
+		code := 0
+		fmt.Sscanf(kind, "%d", &code)
+		switch {
+		case strings.HasSuffix(kind, "-0"):
+			w.Header().Set("Retry-After", "0")
+		case strings.HasSuffix(kind, "-past"):
+			w.Header().Set("Retry-After", time.Now().Add(-time.Minute).UTC().Format(http.TimeFormat))
+		default:
+			w.Header().Set("Retry-After", "1")
+		}
+		w.WriteHeader(code)
+		w.Write([]byte("busy"))
 	case "200-garbage":
 		w.WriteHeader(200)
 		w.Write([]byte("<html>not json</html>"))
